@@ -843,8 +843,7 @@ func (m *lm) opDup() string {
 	case 1: // re-propose the same transaction
 		m.label("dup:repropose-tx")
 		tx := v.Transaction
-		r := m.w.ProposeTx(n, tx)
-		m.w.Ops = append(m.w.Ops, sim.Op{K: "repropose", N: n, V: m.w.OrderIndex(h)})
+		r := m.w.Apply(sim.Op{K: "repropose", N: n, V: m.w.OrderIndex(h)})
 		m.noteResult("C03", r, "CreateLeaf")
 		// a transaction whose tentative vertex was dropped everywhere may be proposed again
 		inLedger := false
@@ -874,8 +873,7 @@ func (m *lm) opDup() string {
 		}
 		p := tips[rapid.IntRange(0, len(tips)-1).Draw(m.rt, "uTip")]
 		sealer := m.w.RogueWallet(1)
-		v2 := m.w.Craft(sealer, v.Transaction, p, p, 0)
-		m.w.Ops = append(m.w.Ops, sim.Op{K: "craft-dup", Sealer: sealer, V: m.w.OrderIndex(h), L: m.w.OrderIndex(p)})
+		v2 := m.w.Apply(sim.Op{K: "craft-dup", Sealer: sealer, V: m.w.OrderIndex(h), L: m.w.OrderIndex(p)}).Vertex
 		d := m.w.Apply(sim.Op{K: "deliver", N: n, V: m.w.OrderIndex(v2.Hash)})
 		m.noteResult("C03", d, "AddLeaf")
 		return fmt.Sprintf("dup-second-sealer(node %d, tx of %s as %s)=%s", n, short(h), short(v2.Hash), errClass(d.Err))
@@ -932,9 +930,7 @@ func (m *lm) opRuleBreak() string {
 	p := tips[rapid.IntRange(0, len(tips)-1).Draw(m.rt, "bTip")]
 	if via == "orphan" {
 		// child first: seal an ordinary parent that is withheld, put the rule-breaking vertex on top of it
-		ptx := m.w.MakeTx(0, 1, spice.Melange{}, 8)
-		pv := m.w.Craft(m.w.RogueWallet(1), ptx, p, p, 0)
-		m.w.Ops = append(m.w.Ops, sim.Op{K: "craft-parent", L: m.w.OrderIndex(p)})
+		pv := m.w.Apply(sim.Op{K: "craft-parent", L: m.w.OrderIndex(p)}).Vertex
 		res := m.w.Apply(sim.Op{K: "craft", Sealer: sealer, From: from, To: to, C: amt.Currency, S: amt.SupplementaryCurrency, L: m.w.OrderIndex(pv.Hash), R: m.w.OrderIndex(pv.Hash)})
 		m.ruleBreak[res.Vertex.Hash] = kind
 		d1 := m.w.Apply(sim.Op{K: "deliver", N: n, V: m.w.OrderIndex(res.Vertex.Hash)})
@@ -983,27 +979,30 @@ func (m *lm) opBalance() string {
 	n := m.pickNode("qNode")
 	var addr string
 	var name string
+	bop := sim.Op{K: "balance", N: n}
 	switch rapid.IntRange(0, 9).Draw(m.rt, "qKind") {
 	case 0:
-		addr, name = ref.NewKey("absent", []byte("absent")).Addr, "absent"
+		bop.Note = "absent"
 		m.label("c06:addr-absent")
 	case 1:
-		addr, name = m.w.Genesis.Transaction.IssuerAddress, "genesis-issuer"
+		bop.Note = "genesis-issuer"
 		m.label("c06:addr-genesis-issuer")
 	case 2:
-		wi := rapid.IntRange(0, m.w.NumWallets()-1).Draw(m.rt, "qAny")
-		addr, name = m.w.Wallets[wi].Addr, m.w.Wallets[wi].Name
+		bop.Addr = rapid.IntRange(0, m.w.NumWallets()-1).Draw(m.rt, "qAny")
 	default:
-		wi := m.pickSpender("qWallet")
-		addr, name = m.w.Wallets[wi].Addr, m.w.Wallets[wi].Name
+		bop.Addr = m.pickSpender("qWallet")
+	}
+	addr, name = m.w.AddrOf(bop), bop.Note
+	if name == "" {
+		name = m.w.Wallets[bop.Addr].Name
 	}
 	before := m.snaps[n]
 	dBefore := before.Digest(true)
 	reps := 3
 	var answers []string
 	for k := 0; k < reps; k++ {
-		got, err := m.w.Balance(n, addr)
-		m.w.Ops = append(m.w.Ops, sim.Op{K: "balance", N: n, Note: name})
+		res := m.w.Apply(bop)
+		got, err := res.Balance, res.Err
 		if errors.Is(err, sim.ErrStuck) {
 			m.addViol("C08", "stuck:balance", "CalculateBalance did not return")
 			m.stuck = err
